@@ -475,6 +475,16 @@ def rule_h(ctx: Ctx) -> None:
     def memoised(fn: ast.AST) -> bool:
         return any(("lru_cache" in norm(d) or norm(d) in ("cache", "functools.cache")) for d in getattr(fn, "decorator_list", []))
 
+    # classes of the package that keep per-call state on the instance (same criterion as C19.d)
+    stateful_names: set[str] = set()
+    for c_ in repo.all_classes():
+        for mname, md in c_.methods().items():
+            if mname.startswith("__") and mname.endswith("__"):
+                continue
+            if any(isinstance(x, ast.Attribute) and isinstance(x.ctx, ast.Store) and isinstance(x.value, ast.Name) and x.value.id == "self" for x in walk_no_nested(md)):
+                stateful_names.add(c_.name)
+                break
+
     def returned_worker(fn: ast.AST):
         bad_ = None
         for r in walk_no_nested(fn):
@@ -484,7 +494,7 @@ def rule_h(ctx: Ctx) -> None:
                 if isinstance(c, ast.Call):
                     cn = call_name(c) or ""
                     last = cn.split(".")[-1] if cn else (c.func.attr if isinstance(c.func, ast.Attribute) else "")
-                    if last in ("tokenizer", "parser", "generator", "jsonpath_tokenizer") or last.endswith(worker_suffix):
+                    if last in ("tokenizer", "parser", "generator", "jsonpath_tokenizer") or last.endswith(worker_suffix) or (last[:1].isupper() and last in stateful_names):
                         bad_ = (c, last)
         return bad_
 
